@@ -45,25 +45,25 @@ type extMutator struct {
 }
 
 var extMutators = map[string]extMutator{
-	"google.golang.org/protobuf/proto.Merge":                                  {[]int{0}, true, "proto.Merge writes dst"},
-	"google.golang.org/protobuf/proto.Reset":                                  {[]int{0}, true, "proto.Reset clears the message"},
-	"github.com/mennanov/fmutils.Filter":                                      {[]int{0}, true, "fmutils.Filter clears fields in place"},
-	"github.com/mennanov/fmutils.Prune":                                       {[]int{0}, true, "fmutils.Prune clears fields in place"},
-	"github.com/mennanov/fmutils.Overwrite":                                   {[]int{1}, true, "fmutils.Overwrite writes dest"},
-	"(github.com/mennanov/fmutils.NestedMask).Filter":                         {[]int{1}, true, "NestedMask.Filter clears fields in place"},
-	"(github.com/mennanov/fmutils.NestedMask).Prune":                          {[]int{1}, true, "NestedMask.Prune clears fields in place"},
-	"(github.com/mennanov/fmutils.NestedMask).Overwrite":                      {[]int{2}, true, "NestedMask.Overwrite writes dest"},
-	"google.golang.org/protobuf/proto.UnmarshalOptions.Unmarshal":             {[]int{2}, true, "Unmarshal writes the message"},
-	"google.golang.org/protobuf/proto.Unmarshal":                              {[]int{1}, true, "Unmarshal writes the message"},
-	"sort.Slice":                                                              {[]int{0}, false, "sort.Slice reorders the slice in place"},
-	"sort.SliceStable":                                                        {[]int{0}, false, "sort.SliceStable reorders the slice in place"},
-	"sort.Sort":                                                               {[]int{0}, false, "sort.Sort reorders in place"},
-	"sort.Stable":                                                             {[]int{0}, false, "sort.Stable reorders in place"},
-	"sort.Strings":                                                            {[]int{0}, false, "sort.Strings reorders in place"},
-	"slices.Sort":                                                             {[]int{0}, false, "slices.Sort reorders in place"},
-	"slices.SortFunc":                                                         {[]int{0}, false, "slices.SortFunc reorders in place"},
-	"slices.SortStableFunc":                                                   {[]int{0}, false, "slices.SortStableFunc reorders in place"},
-	"slices.Reverse":                                                          {[]int{0}, false, "slices.Reverse reorders in place"},
+	"google.golang.org/protobuf/proto.Merge":                      {[]int{0}, true, "proto.Merge writes dst"},
+	"google.golang.org/protobuf/proto.Reset":                      {[]int{0}, true, "proto.Reset clears the message"},
+	"github.com/mennanov/fmutils.Filter":                          {[]int{0}, true, "fmutils.Filter clears fields in place"},
+	"github.com/mennanov/fmutils.Prune":                           {[]int{0}, true, "fmutils.Prune clears fields in place"},
+	"github.com/mennanov/fmutils.Overwrite":                       {[]int{1}, true, "fmutils.Overwrite writes dest"},
+	"(github.com/mennanov/fmutils.NestedMask).Filter":             {[]int{1}, true, "NestedMask.Filter clears fields in place"},
+	"(github.com/mennanov/fmutils.NestedMask).Prune":              {[]int{1}, true, "NestedMask.Prune clears fields in place"},
+	"(github.com/mennanov/fmutils.NestedMask).Overwrite":          {[]int{2}, true, "NestedMask.Overwrite writes dest"},
+	"google.golang.org/protobuf/proto.UnmarshalOptions.Unmarshal": {[]int{2}, true, "Unmarshal writes the message"},
+	"google.golang.org/protobuf/proto.Unmarshal":                  {[]int{1}, true, "Unmarshal writes the message"},
+	"sort.Slice":            {[]int{0}, false, "sort.Slice reorders the slice in place"},
+	"sort.SliceStable":      {[]int{0}, false, "sort.SliceStable reorders the slice in place"},
+	"sort.Sort":             {[]int{0}, false, "sort.Sort reorders in place"},
+	"sort.Stable":           {[]int{0}, false, "sort.Stable reorders in place"},
+	"sort.Strings":          {[]int{0}, false, "sort.Strings reorders in place"},
+	"slices.Sort":           {[]int{0}, false, "slices.Sort reorders in place"},
+	"slices.SortFunc":       {[]int{0}, false, "slices.SortFunc reorders in place"},
+	"slices.SortStableFunc": {[]int{0}, false, "slices.SortStableFunc reorders in place"},
+	"slices.Reverse":        {[]int{0}, false, "slices.Reverse reorders in place"},
 }
 
 // invoke mutators: interface method name on protoreflect.Message / List / Map handles.
